@@ -26,12 +26,13 @@ func cp(c *Case, name string, def int) int {
 
 // sc is the per-scenario context handed to scenario functions.
 type sc struct {
-	c  *Case
-	o  *Outcome
-	r  *vh.Rand
-	t0 time.Time
-	mu sync.Mutex
-	in []*Instance
+	c       *Case
+	o       *Outcome
+	r       *vh.Rand
+	t0      time.Time
+	mu      sync.Mutex
+	in      []*Instance
+	cleanup []func()
 }
 
 func (s *sc) logf(f string, a ...any) {
@@ -69,8 +70,10 @@ func (s *sc) count(bucket string) {
 }
 
 // instance creates an instance that is closed (and its log kept) when the scenario ends.
-func (s *sc) instance(mod modFunc) (*Instance, error) {
-	in, err := NewInstance(mod)
+func (s *sc) instance(mod modFunc) (*Instance, error) { return s.instanceWithSink(mod, nil) }
+
+func (s *sc) instanceWithSink(mod modFunc, sink *Sink) (*Instance, error) {
+	in, err := NewInstanceWithSink(mod, sink)
 	if err != nil {
 		return nil, err
 	}
@@ -130,6 +133,9 @@ func RunCase(c Case, keepLogs bool) (out Outcome) {
 			} else {
 				out.Err = fmt.Sprintf("scenario panicked: %v\n%s", p, debug.Stack())
 			}
+		}
+		for _, f := range s.cleanup {
+			f()
 		}
 		for _, in := range s.in {
 			in.Close()
